@@ -18,6 +18,14 @@ class FakeCl(object):
         self.name = name
         self.sent = []  # (event_no, raw_config, bytes)
         self.fail_next = 0
+        # the agent walks every registered adaptor on NameOwnerChanged (whole-stack worlds own bus names)
+        self.serv_name = None
+
+    def bind(self, _bus_conn):
+        return None
+
+    def unbind(self):
+        return None
 
     def send_bundle_func(self, tx_params):
         def sender(data):
